@@ -116,6 +116,12 @@ def tmpl(name, args):
         return ("cmp", "eq", X, ("lit", 3))
     if name == "floor":
         return ("bi", "floor", ("bin", "truediv", X, ("lit", 4)), ())
+    if name == "roundr":  # a builtin whose extra parameter is itself a ref
+        return ("bi", "round", ("bin", "truediv", X, ("lit", 7)), (Y,))
+    if name == "kw2":     # a call with two keywords that are not in alphabetical order
+        return ("call", "hyp", (), (("y", X), ("x", ("lit", 2))))
+    if name == "unit":    # a string literal as positional argument of a call
+        return ("call", "scale", (X, ("lit", "k")), ())
     if name == "pair1":  # an item of a call RESULT: f.pair(X)[1]  (the owner of the item ref is a computed expression)
         return ("ix", ("call", "pair", (X,), ()), 1)
     if name == "cplx":   # an attribute of an operator result: (X * 1j).imag
@@ -131,9 +137,9 @@ def tmpl(name, args):
     raise ValueError(name)
 
 
-UNARY = ("mul2", "inc", "neg", "dbl", "pick", "abs", "round1", "lt", "eqx", "floor", "rpow", "abs2", "pair1", "cplx")
+UNARY = ("mul2", "inc", "neg", "dbl", "pick", "abs", "round1", "lt", "eqx", "floor", "rpow", "abs2", "pair1", "cplx", "kw2", "unit")
 BINARY_SYM = ("add", "mul")
-BINARY_ASYM = ("sub", "addr", "mulr")
+BINARY_ASYM = ("sub", "addr", "mulr", "roundr")
 
 
 def build_universe(world, cfg):
